@@ -4,6 +4,8 @@
 package world
 
 import (
+	"os"
+	"runtime/debug"
 	"context"
 	"fmt"
 	"strings"
@@ -189,6 +191,9 @@ func (w *World) RunTx(ctx sdk.Context, f func(ctx sdk.Context) error) (res strin
 func (w *World) RunHook(ctx sdk.Context, f func(ctx sdk.Context) error) (res string) {
 	defer func() {
 		if e := recover(); e != nil {
+			if os.Getenv("VERIF_DEBUG") != "" {
+				fmt.Fprintf(os.Stderr, "hook panic: %v\n%s\n", e, debug.Stack())
+			}
 			res = "panic ;; " + panicClass(e)
 		}
 	}()
